@@ -4,6 +4,7 @@ import json, os
 V = os.path.dirname(os.path.dirname(os.path.abspath(__file__)))
 props = [json.loads(l) for l in open(os.path.join(V, "properties.jsonl"))]
 
+REP_NOTE = "Trusted: harness/replaceops.py, findops.py, katoms.py (rendering, integer projection, rebinding of mofun.mofun.find_pattern_in_structure to record or stub the search), TLC. Poses are cube rotations composed with seeded global rotations / joint pattern motions; calls whose pose is under-determined (collinear search pattern with off-axis replacement atoms) are recognised by TLC and skipped, as are calls where two matches insert the same atom at the same place."
 FIND_NOTE = "Trusted: harness/findops.py rendering/projection (numpy; un-rendering positions to integers, lattice vectors and rotation residual in floating point), TLC. Crystals are lattice crystals (integer coordinates, cube-group poses, seeded random global rotations / pattern motions on top); tolerance classes keep atol <= 1/32 lattice unit so every candidate is either exact or clearly outside. Sub-lattice near misses (distances within tolerance, positions not) are not generated."
 CHECKS = {
  "C01": dict(engine="findops", ref="DESIGN.md 4/C01, 3.4",
@@ -18,6 +19,26 @@ CHECKS = {
    technique="TLC action property ShiftInvariant on MC_Find + TLC trace validation of searches on shifted / permuted / re-posed / hinted / reseeded / replicated representations of the same crystal",
    text="The same abstract crystal is searched under atom permutations, exact cube and random rigid motions of the pattern, global rotations, jitter, all kinds of hint triples (incl. index 0 and partial hints), RNG seeds, shifted-and-wrapped copies (TLC action property on the model) and real supercells from Atoms.replicate; TLC judges each answer against DefGroups of the abstract crystal, and supercell counts against a*b*c times the unit-cell count.",
    note=FIND_NOTE + " Real MOF files are not yet part of this check."),
+ "C04": dict(engine="replaceops", ref="DESIGN.md 4/C04, 3.5",
+   technique="TLA+ spec Replace (built from AtomsAbs operations) + TLC trace validation of observed replace calls: end-to-end on MC_Find crystals with the library's own search recorded, and exhaustive bookkeeping through MC_Replace with a stubbed search",
+   text="Every observed call is judged by TLC: inputs unmodified; reported count is a nearest integer to f*M and some sub-list of the found matches of that size explains the result; exactly the matched-and-not-retained atoms are gone, exactly the non-retained replacement atoms are there once per match; every other atom keeps position, element, label, mass, charge, group.",
+   note=REP_NOTE),
+ "C05": dict(engine="replaceops", ref="DESIGN.md 4/C05",
+   technique="TLC trace validation (Replace.tla): inserted rows must sit, modulo the lattice (exact integer wrap), where a proper cube-rotation pose of the search pattern onto the recorded match puts the replacement atoms, and inside the closed cell",
+   text="On crystals with planted copies in all cube poses across faces/edges/corners of orthorhombic, tilted (both signs), strongly skewed and globally rotated cells, with patterns moved jointly by cube and random rigid motions: TLC finds a proper pose consistent with the recorded match and checks every inserted atom's lattice position (exact wrap) and that its fractional coordinates lie in [0,1].",
+   note=REP_NOTE),
+ "C06": dict(engine="replaceops", ref="DESIGN.md 4/C06",
+   technique="TLC model checking of MC_Replace (specified outcome consistent) + TLC trace validation of stubbed and end-to-end replace calls with type ids resolved through the tables by TLC",
+   text="Structures with pre-existing bonds/angles inside, across and outside the matched copies (also permuted same-atom terms, tables with unused trailing types), replacement patterns with their own terms and tables (terms duplicating existing ones forwards/backwards, shared atoms in another order), parameterised / bare / CIF-like mixed flavours: TLC decides every term and its resolved coefficient text, adopted type meanings, charges and groups of inserted atoms.",
+   note=REP_NOTE + " Known finding K-pair-table-misaligned (documented CIF workflow) is reported as KNOWN-FINDING."),
+ "C07": dict(engine="replaceops", ref="DESIGN.md 4/C07",
+   technique="TLC trace validation of stubbed (all sharing patterns of chained / turned copies x pattern pairs x replace_all x ignore) and end-to-end replace calls against Replace.tla's overlap rule",
+   text="The dedicated exception is legitimate iff the ignore flag is off and some allowed selection removes an atom twice; it must be raised when every allowed selection overlaps; matches overlapping only in atoms both patterns share (in any listing order), empty replacements and ignored overlaps must not raise.",
+   note=REP_NOTE),
+ "C08": dict(engine="replaceops", ref="DESIGN.md 4/C08",
+   technique="TLC trace validation of self-replacement and element-substitution requests (end-to-end and stubbed) against Replace.tla: the specified result of replacing a pattern by itself is the identity on atoms and term tuples",
+   text="Requests whose replacement pattern equals the search pattern (same / reordered atoms, with or without own terms, replace_all on/off) and single-element substitutions on crystals in every pose and cell; any clause failing on them counts. Chained A->B->A runs and the real MOF files are not part of this check yet.",
+   note=REP_NOTE + " Known finding K-pair-table-misaligned applies."),
  "C09": dict(engine="atomsops", ref="DESIGN.md 4/C09, 3.2",
    technique="TLA+ spec AtomsAbs model-checked with TLC; TLC-generated histories replayed into mofun.Atoms; every observed transition validated by TLC (Trace_AtomsAbs)",
    text="TLC explores every history of Atoms operations (construct, extend in all modes and identity maps, delete every subset, pop, replicate, subset, copy) within small bounds on the property-level spec and checks its invariants and action properties; each explored history is executed on the real class and every observed transition must be a transition of the spec from the abstraction of the observed pre-state (type ids resolved through the tables by TLC, so stale or misaligned tables show as a wrong label/coefficient text). Bounded-exhaustive, not a proof.",
@@ -41,7 +62,9 @@ m = {"version": 1,
      "hooks": {"guard": "MOFUN_VERIF", "enable": "no source hooks are needed: the harness imports /repo in place (editable install) and observes public state; bin/check exports MOFUN_VERIF=1",
                "baseline_off_cmd": "cd /repo && /venv/bin/python -m pytest -ra -q -p no:cacheprovider --timeout=900 --continue-on-collection-errors",
                "source_commits": [], "add_only": True},
-     "engines": [{"name": "findops", "path": "harness/findops.py", "serves_properties": ["C01", "C02", "C03"],
+     "engines": [{"name": "replaceops", "path": "harness/replaceops.py", "serves_properties": ["C04", "C05", "C06", "C07", "C08"],
+                  "kind_free_text": "TLC trace validation of observed replace calls (end-to-end with recorded search; stubbed search enumerated by MC_Replace)"},
+                 {"name": "findops", "path": "harness/findops.py", "serves_properties": ["C01", "C02", "C03"],
                   "kind_free_text": "TLC model checking of the search design + TLC validation of observed answers"},
                  {"name": "atomsops", "path": "harness/atomsops.py", "serves_properties": ["C09", "C10", "C11", "C12"],
                   "kind_free_text": "TLC model checking + spec->code replay + code->spec trace validation"}],
